@@ -192,7 +192,7 @@ def port_part(net, a, b):
 
 def port_impedance(net, a, b):
     """Exact driving-point impedance between nodes a and b with all sources deactivated.
-    Returns (status, Z): status in 'ok' | 'infinite' (no unique solution: port floats)."""
+    Returns (status, Z): status in 'ok' | 'detached' (no conducting path between a and b: Z is infinite) | 'infinite' (no unique solution)."""
     if a == b:
         return 'ok', 0j
     # keep only the part of the deactivated network that is conductively attached to the port
@@ -210,7 +210,7 @@ def port_impedance(net, a, b):
                 if x == n and y not in comp:
                     comp.add(y); frontier.append(y)
     if b not in comp:
-        return 'infinite', None
+        return 'detached', None            # no conducting path at all between the two nodes: the impedance is infinite
     sub = {'ref': b, 'branches': [br for br in conducting if br['n1'] in comp and br['n2'] in comp]}
     sol = solve_network(sub, deactivate=True, inject=(a, b))
     if not sol['unique']:
